@@ -18,6 +18,11 @@ CFG = {
             "retryruns",
             400,
             8000
+        ],
+        [
+            "c17calls",
+            1500,
+            20000
         ]
     ],
     # subs whose model output is proved equal to the documented specification (C17_table,
@@ -27,17 +32,22 @@ CFG = {
     # specification (C17_runs_private / C17_runs_compose, Proofs/RetryRunsP.v -- a file that does not
     # depend on the regenerated pool tables, so it still builds on a tree that breaks C17_pool_sites)
     "spec_subs": {"canretry": [], "errcode": [], "canretrys": [], "retrycb": [],
-                  "retryruns": ["theories/Proofs/RetryRunsP.vo"]},
-    "rule": "retryruns: 1..3 goroutines x 1..2 top-level Channel.RunWithRetry runs each, every attempt may make 1..2 nested runs (two levels), yield to the next goroutine (baton: one runnable goroutine at a time), mark scripted host:ports before / after and select from a real sub-channel peer list with its PrevSelectedPeers; per run its own options (none / MaxAttempts in {0,1,2,3,4,5,7} x 6 policies x optional per-attempt timeout), one of two Channels, peers from a pool of its own (1 case in 5: one pool for all runs); 3/4 of the cases under GOMAXPROCS(1) + GC off with the identity of every RequestState recorded, 1/4 with the process's settings; fixed cases: 4-attempt run whose every attempt makes a 3-attempt run, a run parked in its first attempt while another goroutine makes three attempts, a one-attempt run with a nested five-attempt run; non-trivial = two runs overlap (nesting or a yield). errcode / canretrys: getErrCode and CanRetry on every error shape family (nil, plain, plain wrapping net.Error, 4 net.Error flavours, SystemError of each of the 256 codes wrapping net.Error timeout / non-timeout / plain / nil / OpError / DeadlineExceeded / plain-wrapping-net, SystemError wrapping SystemError, random nesting to depth 3) x 7 policies; retrycb: random ContextBuilder setter sequences (0..6 calls of SetRetryOptions(nil | fresh struct | a struct passed before) and SetTimeoutPerAttempt, MaxAttempts in {0,1,2,3,5,7,10}, 6 policies, 5 per-attempt timeouts, contexts without TChannel parameters) -> Build -> real getRetryOptions and real Channel.RunWithRetry with scripted outcomes of every shape; non-trivial = at least two setter calls or two attempts. canretry: the full table 7 policies x 256 codes x {system, net.Error, other}; retry: random scripts (policy, MaxAttempts in {0,1,2,3,5,7,10}, outcome list with position of first success, peers marked per attempt, optional per-attempt timeout) run through the real Channel.RunWithRetry; retry-avoid: real sub-channel peer lists of 1..6 peers. Non-trivial = more than one attempt (retry), more than one peer (avoid), every table point; distinct by input.",
+                  "retryruns": ["theories/Proofs/RetryRunsP.vo"],
+                  # c17calls: the calls machine is proved to send EVERY sub-channel call that carries the RequestState to an
+                  # untried member whenever there is one (C17_every_call_avoids, Proofs/C17CallsP.v -- independent of the
+                  # regenerated BeginCall functions, whose tie is Proofs/C17CallsTieP.v)
+                  "c17calls": ["theories/Proofs/C17CallsP.vo"]},
+    "rule": "c17calls: one real Channel.RunWithRetry per case on a fresh Channel whose Dialer records the host:port and refuses; every attempt makes 0..4 calls -- Channel.BeginCall / Peer.BeginCall to a host:port, SubChannel.BeginCall on one of 1..3 peer lists (the channel's own list through a plain sub-channel, isolated sub-channels; 0..5 peers out of 3 hosts x 3 ports, shared between lists) -- with &CallOptions{RequestState: rs}, nil or &CallOptions{}; distinct custom scores (the tried peer stays best ranked), 1 case in 6 default strategies (oracle only); MaxAttempts in {0,1,2,3,4} x 6 policies x scripted outcomes incl. bare context errors; fixed cases: two sub-channel calls in the only attempt (RetryNever), the same in the first of three attempts, direct call then sub-channel call, fan-out of 4 calls on 3 peers, two lists sharing their best peer; non-trivial = two or more calls with the RequestState in one attempt, or two attempts. retry / retryopts / retryruns error generators: + the bare context.Canceled / context.DeadlineExceeded, io.EOF, ErrNoPeers and their fmt.Errorf(%w) wrappers (one and two levels), SystemErrors wrapping them. retryruns: 1..3 goroutines x 1..2 top-level Channel.RunWithRetry runs each, every attempt may make 1..2 nested runs (two levels), yield to the next goroutine (baton: one runnable goroutine at a time), mark scripted host:ports before / after and select from a real sub-channel peer list with its PrevSelectedPeers; per run its own options (none / MaxAttempts in {0,1,2,3,4,5,7} x 6 policies x optional per-attempt timeout), one of two Channels, peers from a pool of its own (1 case in 5: one pool for all runs); 3/4 of the cases under GOMAXPROCS(1) + GC off with the identity of every RequestState recorded, 1/4 with the process's settings; fixed cases: 4-attempt run whose every attempt makes a 3-attempt run, a run parked in its first attempt while another goroutine makes three attempts, a one-attempt run with a nested five-attempt run; non-trivial = two runs overlap (nesting or a yield). errcode / canretrys: getErrCode and CanRetry on every error shape family (nil, plain, plain wrapping net.Error, 4 net.Error flavours, SystemError of each of the 256 codes wrapping net.Error timeout / non-timeout / plain / nil / OpError / DeadlineExceeded / plain-wrapping-net, SystemError wrapping SystemError, random nesting to depth 3) x 7 policies; retrycb: random ContextBuilder setter sequences (0..6 calls of SetRetryOptions(nil | fresh struct | a struct passed before) and SetTimeoutPerAttempt, MaxAttempts in {0,1,2,3,5,7,10}, 6 policies, 5 per-attempt timeouts, contexts without TChannel parameters) -> Build -> real getRetryOptions and real Channel.RunWithRetry with scripted outcomes of every shape; non-trivial = at least two setter calls or two attempts. canretry: the full table 7 policies x 256 codes x {system, net.Error, other}; retry: random scripts (policy, MaxAttempts in {0,1,2,3,5,7,10}, outcome list with position of first success, peers marked per attempt, optional per-attempt timeout) run through the real Channel.RunWithRetry; retry-avoid: real sub-channel peer lists of 1..6 peers. Non-trivial = more than one attempt (retry), more than one peer (avoid), every table point; distinct by input.",
     "trusted_base": COMMON_TRUSTED + [
         "requestStatePool: sync.Pool is modelled as 'Get returns any element that is in the pool or a new zero one' (no claim about which); the life cycle of the pooled RequestState is regenerated from retry.go (Gen/GenReqStatePool.v: every mention of the pool, every occurrence of a variable holding an element, reset per struct field) and proved equal to the model's tables; the retried function is trusted not to keep the *RequestState beyond its attempt",
+        "call paths (go2v/c17calls.go, Gen/GenC17Calls.v): SubChannel.BeginCall, Channel.BeginCall, Peer.BeginCall, RequestState.PrevSelectedPeers / RetryCount are regenerated whole and proved equal to the mirrors of Model/C17Calls.v; value view (Base/C17CallSem.v): *RequestState = option (Attempt, keys of SelectedPeers) by value, *CallOptions = option of its RequestState field, *Peer = its host:port, error = Z; PeerList.Get, RootPeerList.GetOrAdd, validateCall, GetConnection, Connection.beginCall are parameters (any behaviour); the body of AddSelectedPeer is C15's tie (Gen/GenPeerSel.v), here its nil-receiver wrapper is a hint; peer lists are Model/PeerList.v (C15), rng draws of the heap's order stamps fixed to 0 (distinct scores: the selection does not depend on them)",
         "modelled by hand (tied by correspondence): RunWithRetry loop, AddSelectedPeer, getHost, NewContextBuilder leaving RetryOptions nil, getTChannelParams (context lookup); regenerated from source each run: CanRetry, getErrCode, isNetError, GetSystemErrorCode, SystemError.Code/Wrapped, ContextBuilder.SetRetryOptions / SetTimeoutPerAttempt, the retryOptions entry of Build, getRetryOptions, the RetryOptions struct and defaultRetryOptions, RetryOn/ErrCode constants",
         "abstraction: a Go error is seen as its shape under type assertions (nil | SystemError code wrapping shape | net.Error | other error wrapping shape); the older loop model sees (nil?, SystemError? with code, net.Error?), proved a refinement",
         "abstraction: a *RetryOptions is seen by value (nil = None): a struct shared between holders and mutated after Build is not represented; the engine takes the struct's content at each SetRetryOptions call and builds the context after the last setter",
         "go2v hints of the options targets: cb.RetryOptions / params.retryOptions are state variables, params == nil <-> the context carries no TChannel parameters, defaultRetryOptions = the generated record"
 ],
     "assumptions": [
-        "sub-channel avoidance clause is decided by C15's theorems on PeerList.Get; here it is exercised by the oracle only",
+        "sub-channel avoidance: PeerList.Get's choice is C15's theorem (get_min_eligible); what Get is fed with and what gets recorded is C17_calls_generated + C17_every_call_avoids",
         "MaxAttempts < 0 (loop runs zero times, returns nil) is outside the statement's domain"
     ]
 }
